@@ -34,7 +34,7 @@ pub fn __ok_or_else_fresh<K, V>(key: Option<K>, b: &mut OptBuilder<K, V>) -> (r:
         final(b).counter == (if key is None { (old(b).counter + 1) as usize } else { old(b).counter }),
 { unimplemented!() }
 """),
-        dict(file="src/compact.rs", path="impl OptBuilder / fn entry", closure=0, header_re=r"^\|\|$",
+        dict(file="src/compact.rs", path="impl OptBuilder / fn entry", closure=0, header_re=r"^\|\|$", optional_item=True,
              as_fn="optbuilder_entry__fresh_key", generics="<K, V>", rename_self=True,
              params="self_: &mut OptBuilder<K, V>", ret="out", ret_type="usize",
              obligation="C11.V.compact_opt.fresh_key", rules=[],
@@ -47,7 +47,7 @@ ensures
             dict(path="fn new", ret="r", vis="pub ", obligation="C11.V.compact_opt.new", rules=[],
                  contract="ensures dense(r.map@), r.map@.len() == 0, errs_below(r.map@, r.counter), // @ob C11.V.compact_opt.new"),
             dict(path="fn entry", ret="r", vis="pub ", obligation="C11.V.compact_opt.entry_index", rules=[],
-                 body_subst=[(r"(?s)key\.ok_or_else\(\|\| \{.*?\}\);", "__ok_or_else_fresh(key, self);", "R5 Option::ok_or_else bound to its std contract composed with the closure's proved contract")],
+                 body_subst_optional=[(r"(?s)key\.ok_or_else\(\|\| \{.*?\}\);", "__ok_or_else_fresh(key, self);", "R5 Option::ok_or_else bound to its std contract composed with the closure's proved contract")],
                  contract="""requires
     dense(old(self).map@), errs_below(old(self).map@, old(self).counter), old(self).counter < usize::MAX,
 ensures
